@@ -270,7 +270,13 @@ func sameStrings(a, b []string) bool {
 	return true
 }
 
+type keptPassword struct {
+	p        *spg.Password
+	rendered string
+}
+
 type executor struct {
+	kept    map[string]keptPassword // last password returned per shared list / recipe
 	chars   map[string]*spg.CharRecipe
 	lists   map[string]*spg.WordList
 	listSrc map[string][]string
@@ -279,7 +285,7 @@ type executor struct {
 }
 
 func newExecutor() *executor {
-	return &executor{chars: map[string]*spg.CharRecipe{}, lists: map[string]*spg.WordList{}, listSrc: map[string][]string{}}
+	return &executor{kept: map[string]keptPassword{}, chars: map[string]*spg.CharRecipe{}, lists: map[string]*spg.WordList{}, listSrc: map[string][]string{}}
 }
 
 // the CharRecipe an op works on: a fresh value, or (obj=<id>) a long-lived one whose public
@@ -372,6 +378,11 @@ func (e *executor) wordList(a opArgs) (*spg.WordList, error, func() string) {
 	src := append([]string{}, words...)
 	wl, err := spg.NewWordList(src)
 	capt.take()
+	// the caller goes on using its slice: the list must not be looking at it any more
+	for i := range src {
+		src[i] = "CALLER-REUSED-SLICE"
+	}
+	src = append([]string{}, words...)
 	if id, ok := a["wlobj"]; ok && err == nil {
 		e.lists[id] = wl
 		e.listSrc[id] = src
@@ -405,6 +416,22 @@ func applySep(r *spg.WLRecipe, s string) {
 		r.SeparatorFunc = presets[v]
 	case "recipe":
 		r.SeparatorFunc = spg.NewSFFunction(parseRecipe(v).build())
+	case "custom":
+		// custom:<D>:<strings>: a caller-written function drawing one of the strings through the
+		// library's own bounded draw and reporting log2(D) bits
+		j := strings.IndexByte(v, ':')
+		if j < 0 {
+			return
+		}
+		d, _ := strconv.Atoi(v[:j])
+		outs := decList(v[j+1:])
+		if len(outs) == 0 {
+			outs = []string{""}
+		}
+		ent := spg.FloatE(math.Log2(float64(d)))
+		r.SeparatorFunc = func() (string, spg.FloatE) {
+			return outs[spg.VerifRandomUint32n(uint32(len(outs)))], ent
+		}
 	}
 }
 
@@ -687,6 +714,27 @@ func (e *executor) exec(line, lean string) string {
 		}
 		if wl != nil && listWords != nil && !ro.panicked && err == nil {
 			so += wlOracle(p, listWords, a.int("L"), a["sep"], decCps(a["cap"]))
+		}
+		// a password returned earlier from the same list must still read the same (C05, C15)
+		if id, ok := a["wlobj"]; ok {
+			if k, ok := e.kept[id]; ok && k.p != nil {
+				if now := showTokens(k.p.Tokens()) + "|" + k.p.String(); now != k.rendered {
+					so += " RESULT-CHANGED-LATER"
+				}
+			}
+			if p != nil {
+				e.kept[id] = keptPassword{p, showTokens(p.Tokens()) + "|" + p.String()}
+			}
+		}
+		// the same recipe on the same bytes makes the same choices (C09)
+		if a["twice"] == "1" && !ro.panicked && err == nil && p != nil {
+			s2 := readerFor(a)
+			var p2 *spg.Password
+			withReader(s2, func() { p2, _ = r.Generate() })
+			capt.take()
+			if p2 == nil || showTokens(p2.Tokens()) != showTokens(p.Tokens()) {
+				so += " NONDETERMINISTIC"
+			}
 		}
 		return genLine("wlgen", lean, p, err, ro, warn, unk, 8, secretsOf(p, listWords)) + so + mut + after()
 
